@@ -154,3 +154,91 @@ Definition new_modelled_check (c : newcase) : bool :=
   if is_modelled_recv t then outcome_eqb (pnew_modelled t args) obs else true.
 
 Definition new_modelled_mismatches (cs : list newcase) : list N := failing new_modelled_check cs.
+
+(* ---- looking at a built function between calls ------------------------------------------------------------------
+   The function is built and resolved in a fresh context, the calls are made, then - once per round - the recorded
+   read-only accessors are asked (each also of the function a repeated Resolve hands out) and the SAME calls are made
+   again.  Compared: what the accessors answered (number of dispatchers / names, type and captures-rest of every
+   px.Parameter, the slot types, the size of the parameter tuple, whether there is a block type) and what every call
+   did after every round. *)
+Fixpoint pty_eqb (a b : pty) {struct a} : bool :=
+  match a, b with
+  | PAny, PAny | PUndef, PUndef | PBoolean, PBoolean | PNumeric, PNumeric | PFloat, PFloat => true
+  | PInteger l h, PInteger l' h' => Z.eqb l l' && Z.eqb h h'
+  | PString l h, PString l' h' => Z.eqb l l' && Z.eqb h h'
+  | PEnum vs, PEnum ws => list_eqb str_eqb vs ws
+  | PEnumCI vs, PEnumCI ws => list_eqb str_eqb vs ws
+  | POptional t, POptional u => pty_eqb t u
+  | PVariant ts, PVariant us =>
+      (fix go (l m : list pty) : bool :=
+         match l, m with
+         | [], [] => true
+         | x :: l', y :: m' => pty_eqb x y && go l' m'
+         | _, _ => false
+         end) ts us
+  | PArray e l h, PArray e' l' h' => pty_eqb e e' && Z.eqb l l' && Z.eqb h h'
+  | PRef n, PRef m => str_eqb n m
+  | PAliasT n, PAliasT m => str_eqb n m
+  | _, _ => false
+  end.
+
+Definition caobs := aobs pty N.
+
+(* the harness names an observed type by the declared type expression it prints like (a local name stays a name);
+   `sub` resolves the local names as Resolve does *)
+Definition aobs_eqb (sub : str -> option pty) (m o : caobs) : bool :=
+  match m, o with
+  | OCount a, OCount b => Nat.eqb a b
+  | OParams ps, OParams qs =>
+      list_eqb pty_eqb (map fst ps) (map (fun q => subst_with sub (fst q)) qs) && list_eqb Bool.eqb (map snd ps) (map snd qs)
+  | OTypes ts, OTypes us => list_eqb pty_eqb ts (map (subst_with sub) us)
+  | OSize a b, OSize c d => Z.eqb a c && Z.eqb b d
+  | OBlockT a, OBlockT b => match a, b with Some _, Some _ | None, None => true | _, _ => false end
+  | OText, OText => true
+  | OResolved a, OResolved b => Bool.eqb a b
+  | OIndexFault, OIndexFault => true
+  | _, _ => false
+  end.
+
+Definition inspcase :=
+  (list (str * pty) * list (list (bop pty N)) * list (list pval * option N) * list callres
+   * list accessor * list (list caobs * list callres))%type.
+
+(* the state of the function after BuildFunction + Resolve in a fresh context: the builders with their types resolved
+   (createDispatch writes them back, function.go:190-193) and the table *)
+Definition insp_state (aliases : list (str * pty)) (dss : list (list (bop pty N))) : option (fstate pty N) :=
+  match snd (resolve_fn ctx0 (aliases, dss)) with
+  | inr ds =>
+      match run_all (map (map (subst_op_with (local_ref [] (map fst aliases)))) dss) 0 with
+      | inr ss => Some (mkF ss ds)
+      | inl _ => None
+      end
+  | inl _ => None
+  end.
+
+Definition calls_on (tab : list (N * option N)) (look : str -> option pty) (st : fstate pty N)
+           (calls : list (list pval * option N)) : list callres :=
+  map (fun cl => call (cinst look) (btab_inst tab) (f_table st) (fst cl) (snd cl)) calls.
+
+Fixpoint insp_rounds (tab : list (N * option N)) (look sub : str -> option pty) (st : fstate pty N) (accs : list accessor)
+         (calls : list (list pval * option N)) (rounds : list (list caobs * list callres)) : bool :=
+  match rounds with
+  | [] => true
+  | (os, rs) :: more =>
+      let '(st1, mos) := run_accessors st accs in
+      list_eqb (aobs_eqb sub) mos os && list_eqb callres_eqb (calls_on tab look st1 calls) rs &&
+      insp_rounds tab look sub st1 accs calls more
+  end.
+
+Definition insp_check (tab : list (N * option N)) (c : inspcase) : bool :=
+  let '(aliases, dss, calls, before, accs, rounds) := c in
+  let look := fn_look ctx0 (aliases, dss) in
+  match insp_state aliases dss with
+  | Some st =>
+      list_eqb callres_eqb (calls_on tab look st calls) before &&
+      insp_rounds tab look (local_ref [] (map fst aliases)) st accs calls rounds &&
+      inst_fuel_ok look (inr (f_table st)) calls
+  | None => false            (* only functions that were built and resolved are looked at *)
+  end.
+
+Definition insp_mismatches (tab : list (N * option N)) (cs : list inspcase) : list N := failing (insp_check tab) cs.
